@@ -259,7 +259,8 @@ class Prop:
             nd = [[lines_obs(lambda: n.format_iter(repr=rarg, style=a, add_self=True)),
                    lines_obs(lambda: n.format_iter(repr=rarg, style=a, add_self=False))] for n in snodes]
             tj = text_obs(lambda: tree.format(repr=rarg, style=a, join=join))
-            nj = [text_obs(lambda: n.format(repr=rarg, style=a, join=join)) for n in jnodes]
+            nj = [[text_obs(lambda: n.format(repr=rarg, style=a, join=join)),
+                   text_obs(lambda: n.format(repr=rarg, style=a, join=join, add_self=False))] for n in jnodes]
             sr = [lines_obs(lambda: tree.system_root.format_iter(repr=rarg, style=a, add_self=True)),
                   lines_obs(lambda: tree.system_root.format_iter(repr=rarg, style=a, add_self=False))]
             obs.append([tr, nd, tj, nj, sr])
@@ -272,7 +273,7 @@ class Prop:
                 break
 
         # what is compared with the model: full text for title default/False and the joined text, hashes for the rest
-        obs = [[tr[:2] + [hlines(x) for x in tr[2:]], [[hlines(a), hlines(b)] for a, b in nd], tj, [htext(x) for x in nj],
+        obs = [[tr[:2] + [hlines(x) for x in tr[2:]], [[hlines(a), hlines(b)] for a, b in nd], tj, [[htext(x), htext(y)] for x, y in nj],
                 [hlines(x) for x in sr]] for tr, nd, tj, nj, sr in obs]
         rends = H.coq_list(f"({H.nid(n)}, {H.coq_text(rend[id(n)])})" for n in nodes)
         cls = "TypedTree" if typed else "Tree"
@@ -338,11 +339,11 @@ class Prop:
         # --- format(join=j) == j.join(format_iter())
         if tj != (tr[0] if tr[0][0] != 0 else [0, join.join(tr[0][1])]):
             return f"tree.format(join): got {tj!r}, format_iter gave {tr[0]!r}"
-        by_node = {id(n): o1 for n, (o1, _) in zip(nodes, nd)}
-        for n, j in zip(jnodes, nj):
-            o1 = by_node[id(n)]
-            if j != (o1 if o1[0] != 0 else [0, join.join(o1[1])]):
-                return f"node {H.nid(n)}.format(join): got {j!r}, format_iter gave {o1!r}"
+        by_node = {id(n): pair for n, pair in zip(nodes, nd)}
+        for n, js in zip(jnodes, nj):
+            for add_self, j, o1 in zip((True, False), js, by_node[id(n)]):
+                if j != (o1 if o1[0] != 0 else [0, join.join(o1[1])]):
+                    return f"node {H.nid(n)}.format(join, add_self={add_self}): got {j!r}, format_iter gave {o1!r}"
         return None
 
     def check_lines(self, what, segs, ob, title_lines, roots, bnodes, rend, base):
